@@ -123,7 +123,17 @@ def oracle_declared_domains(rng):
                     sc.SETTINGS.update(saved)
                     cl.compact_sage_duals(comp)
                     X = build()
-                    for x in rng.sample(pts, 4):
+                    for kx, x in enumerate(rng.sample(pts, 4)):
+                        if kx == 3 and not comp:
+                            # the constant exponent's entry written as the NUMBER 1: v = (1, y) is an affine vector with a constant entry
+                            vy = cl.Variable(shape=(alpha.shape[0] - 1,), name='decl_vy')
+                            v = cl.hstack((1.0, vy))
+                            con = cl.DualSageCone(v, alpha, X, 'decl_dual_const', settings={'compact_dual': False})
+                            st, val = cl.Problem(cl.MIN, cl.Expression([0]), [con, vy == np.exp(alpha @ x)[1:]]).solve(verbose=False)
+                            if not (st == 'solved' and val < 1e-6):
+                                return ('X = %s: the dual SAGE constraint over X stated on v = (1, y) (a constant entry for the zero exponent, compact_dual=False) rejects the '
+                                        'moment vector of the point x = %s of X: feasibility problem reports (%s, %r)' % (desc, x.tolist(), st, val))
+                            continue
                         v = cl.Variable(shape=(alpha.shape[0],), name='decl_v')
                         con = cl.DualSageCone(v, alpha, X, 'decl_dual')
                         st, val = cl.Problem(cl.MIN, cl.Expression([0]), [con, v == np.exp(alpha @ x)]).solve(verbose=False)
